@@ -7,8 +7,12 @@ import random
 import sqlite3
 import sys
 
+import warnings
+
 import numpy as np
 import yaml
+
+warnings.filterwarnings("ignore")
 
 SY_SPLINE = {"type": "spline", "zeta_knots_mm": [-291.7, -183.1, -15.74, 10.65, 38.78, 168.3],
              "sy_knots": [0.13, 0.18, 0.33, 0.55, 0.71, 0.9]}
@@ -119,3 +123,117 @@ def run_C17(repo, tier, seed):
 def replay(repo, rec):
     fn = {"C17": run_C17}.get(rec["property"]) or globals().get("run_" + rec["property"])
     return not fn(repo, "quick", 0)["failures"]
+
+
+def _rec_db(repo, step_mm, et_pattern):
+    """A database with two recession intervals on a 1800 s grid and time-varying ET."""
+    S = 1800
+    levels = [-30, -20, -10, -5, 0]
+    iv = [(10 * S, 16 * S), (30 * S, 33 * S)]           # (start, thru) of two interstorm intervals
+    rows = [(iv[0][0], 100.0, {k: 5000.0 - 300.0 * k for k in levels[1:]}),
+            (iv[1][0], -250.0, {k: 4000.0 - 280.0 * k for k in levels[:4]})]
+    et = [(i * S, (i + 1) * S, et_pattern(i)) for i in range(0, 40)]
+    con = master_db(repo, step_mm, [], [], levels, rows, et=et, curvature=2.36)
+    for s, t in iv:
+        con.execute("INSERT INTO zeta_interval (start_epoch, interval_type, thru_epoch) VALUES (?, 'interstorm', ?)", (s, t))
+    # a third interstorm interval that is NOT part of the master curve, with very different ET
+    con.execute("INSERT INTO zeta_interval (start_epoch, interval_type, thru_epoch) VALUES (?, 'interstorm', ?)", (20 * S, 24 * S))
+    want = np.mean([v for f, t, v in et if any(s <= f < th for s, th in iv)]) * 24
+    return con, want, levels
+
+
+def run_C18(repo, tier, seed):
+    from scipy.integrate import quad
+    m = _mods(repo)
+    rng = random.Random(seed)
+    ev = 0
+    failures, samples = [], []
+    distinct = set()
+    sy = m["specific_yield"].create_specific_yield_function(dict(SY_SPLINE))
+    T = m["transmissivity"].create_transmissivity_function(dict(T_SPLINE))
+    grids = [np.array([-250.0, -200.0, -100.0, -20.0, 0.0, 30.0, 100.0]), np.array([-60.0, -59.0, -30.0]), np.array([5.0])]
+    for _ in range(3 if tier == "quick" else 30):
+        grids.append(np.array(sorted(rng.uniform(-290, 160) for _ in range(rng.randint(2, 7)))))
+    for grid in grids:
+        for et, kappa in ((4.0, 0.0), (0.0, 2.36e-3), (3.1, 1.0e-3)):
+            case = {"zeta_grid_mm": grid.tolist(), "et_mm_d": et, "curvature_km": kappa}
+            try:
+                t = m["simulate_recession"].compute_recession_curve(sy, T, grid, 19.0, kappa, et)
+            except Exception as e:
+                failures.append({"key": "raised", "input": case, "observed": "%s: %s" % (type(e).__name__, e)})
+                continue
+            ev += 1
+            distinct.add((tuple(grid), et, kappa))
+            if abs(t.mean() - 19.0) > 1e-9 * 19:
+                failures.append({"key": "mean", "input": case, "observed": "mean %r, requested 19.0" % t.mean()})
+            f = lambda z: float(sy(z)) / (-et - kappa * float(T(z)))
+            for i in range(len(grid) - 1):
+                want = quad(f, grid[i], grid[i + 1], epsabs=1e-12, epsrel=1e-10, limit=200)[0]
+                if abs((t[i + 1] - t[i]) - want) > 1e-6 * max(1.0, abs(want)):
+                    failures.append({"key": "difference", "input": case, "observed": "t[%d]-t[%d]=%r, integral %r" % (i + 1, i, t[i + 1] - t[i], want)})
+            if any(t[k + 1] > t[k] + 1e-12 for k in range(len(t) - 1)):
+                failures.append({"key": "direction", "input": case, "observed": "time does not increase as the level falls"})
+            if len(grid) >= 2:
+                tr = m["simulate_recession"].compute_recession_curve(sy, T, grid[::-1].copy(), 19.0, kappa, et)
+                if np.max(np.abs((tr[::-1] - tr[::-1][0]) - (t - t[0]))) > 1e-7 * max(1.0, np.max(np.abs(t - t[0]))):
+                    failures.append({"key": "reversal", "input": case, "observed": "reversing the grid changes values at shared levels"})
+            if kappa == 0.0 and len(grid) >= 2:
+                W = m["simulate_rise"].compute_rise_curve(sy, grid, 0.0)
+                if np.max(np.abs((t - t[0]) * et + (W - W[0]))) > 1e-6 * max(1.0, np.max(np.abs(W - W[0]))):
+                    failures.append({"key": "water-balance", "input": case, "observed": "elapsed time x ET != storage released"})
+        if len(samples) < 2:
+            samples.append({"zeta_grid_mm": grid.tolist()})
+    # command level: ET query and tabulated output
+    for pat_name, pat in (("step", lambda i: 0.05 + 0.01 * (i % 7)), ("high-at-starts", lambda i: 0.4 if i in (10, 30) else 0.1),
+                          ("other-interval-differs", lambda i: 0.9 if 20 <= i < 24 else 0.12)):
+        for step_mm in (1.0, 5.0):
+            con, want_et, levels = _rec_db(repo, step_mm, pat)
+            params = yaml.dump({"specific_yield": dict(SY_SPLINE), "transmissivity": dict(T_SPLINE)})
+            case = {"et_pattern": pat_name, "grid_step_mm": step_mm}
+            ev += 1
+            seen = {}
+            orig = m["simulate_recession"].compute_recession_curve
+
+            def spy(**kw):
+                seen.update(kw)
+                return orig(**kw)
+            m["simulate_recession"].compute_recession_curve = spy
+            try:
+                out = io.StringIO()
+                m["simulate_recession"].dump_simulated_recession(con, io.StringIO(params), out, False)
+                out2 = io.StringIO()
+                m["simulate_recession"].dump_simulated_recession(con, io.StringIO(params), out2, True)
+            except Exception as e:
+                failures.append({"key": "raised", "input": case, "observed": "%s: %s" % (type(e).__name__, e)})
+                continue
+            finally:
+                m["simulate_recession"].compute_recession_curve = orig
+            if abs(seen["et_mm_d"] - want_et) > 1e-9 * max(1.0, want_et):
+                failures.append({"key": "et-average", "input": case,
+                                 "observed": "ET used %r mm/d, time-average over the steps of the master curve's intervals %r" % (seen["et_mm_d"], want_et)})
+            table = yaml.safe_load(out.getvalue())
+            meas = con.execute("SELECT zeta_mm, CAST(elapsed_time_s AS double precision) / 86400 FROM average_recession_time ORDER BY zeta_mm DESC").fetchall()
+            body = table[1:]
+            if table[0] != ["Water level, mm", "Measured elapsed time, d", "Simulated elapsed time, d"]:
+                failures.append({"key": "header", "input": case, "observed": repr(table[0])})
+            if any(abs(r[0] - z) > 1e-9 for r, (z, _) in zip(body, meas)) or len(body) != len(meas):
+                failures.append({"key": "levels-mm-descending", "input": case,
+                                 "observed": "first column %r, master-curve levels in mm from highest to lowest %r" % ([r[0] for r in body], [z for z, _ in meas])})
+            if any(abs(r[1] - t) > 1e-9 for r, (_, t) in zip(body, meas)):
+                failures.append({"key": "measured-column", "input": case, "observed": "measured column differs from the master curve"})
+            vec = yaml.safe_load(out2.getvalue())
+            if vec != [r[2] for r in body] or out2.getvalue().splitlines()[0] != "# Recession curve simulation vector":
+                failures.append({"key": "vector", "input": case, "observed": "observations-only output differs from the table's simulated column"})
+            if abs(np.mean([r[2] for r in body]) - np.mean([t for _, t in meas])) > 1e-9:
+                failures.append({"key": "table-mean", "input": case, "observed": "mean of simulated != mean of measured"})
+    return {"bound": "%d level grids x 3 (ET, curvature) settings; 3 ET patterns x 2 grid steps through dump_simulated_recession" % len(grids),
+            "evaluations": ev, "distinct": len(distinct), "exhaustive": False, "failures": _dedupe(failures)[:4], "samples": samples}
+
+
+def _dedupe(failures):
+    seen, out = set(), []
+    for f in failures:
+        if f["key"] not in seen:
+            seen.add(f["key"])
+            out.append(f)
+    return out
